@@ -89,7 +89,8 @@ func (n *FNode) Mixed() bool {
 }
 
 // AttrOps are the operators generated for attribute leaves.
-var AttrOps = []string{"=", "!=", "<", "<=", ">", ">=", "~unknown"}
+// The unknown ones include look-alikes of the known operators.
+var AttrOps = []string{"=", "!=", "<", "<=", ">", ">=", "~unknown", "==", "!==", "<==", ">==", "=<", "<>", "", " =", "IN"}
 
 func neighbour(t *rapid.T, base any, label string) any {
 	up := rapid.Bool().Draw(t, label+"-up")
@@ -299,7 +300,7 @@ func FilterLeaf(t *rapid.T, ts *TypeSpec, vals map[string]any, label string) *FN
 
 	if r.ToOne {
 		cur := vals[r.FromName].(string)
-		op := rapid.SampledFrom([]string{"=", "!=", "in", "~unknown"}).Draw(t, label+"-op")
+		op := rapid.SampledFrom([]string{"=", "!=", "in", "~unknown", "==", "!==", "In", ""}).Draw(t, label+"-op")
 
 		if op == "in" {
 			list := []string{}
@@ -325,7 +326,7 @@ func FilterLeaf(t *rapid.T, ts *TypeSpec, vals map[string]any, label string) *FN
 	}
 
 	cur := vals[r.FromName].([]string)
-	op := rapid.SampledFrom([]string{"=", "!=", "has", "~unknown", "<"}).Draw(t, label+"-op")
+	op := rapid.SampledFrom([]string{"=", "!=", "has", "~unknown", "<", "==", "!==", "Has", "<="}).Draw(t, label+"-op")
 
 	if op == "has" {
 		v := IDString(t, label+"-id", false)
